@@ -924,4 +924,50 @@ example :
     w.pixelSize = some 2 ∧ (rowsOf 2 w.usedTs).flatten ≠ [] ∧
       (w.iw.length : Int) * w.dt * (2 : Nat) ≤ I64MAX := by decide
 
+/-! ## Pixel time, line time and duration as the doubles the code returns -/
+
+
+/-- **`pixel_time_seconds` as a double**: for a wave whose first pixel has `k` used samples the value the
+    code returns — `float(k·dt) * 1e-9`, three roundings in binary64 — is within `(1 ± 2⁻⁵³)³`
+    (relative 3.4·10⁻¹⁶) of `k·dt·10⁻⁹` s. -/
+theorem pixel_time_seconds_spec (w : Wave) (hdt : 0 < w.dt) (lead k : Nat) (hk : 0 < k) (tail : List Nat)
+    (hiw : w.iw = List.replicate lead 0 ++ (pixelCodes k ++ tail)) :
+    ∃ s, w.pixelTimeSec = some s ∧ Within3 s (k * w.dt.toNat) 1000000000 := by
+  refine ⟨_, by unfold Wave.pixelTimeSec; rw [pixel_time_spec w lead k hk tail hiw]; rfl, ?_⟩
+  show Within3 (secondsOf ((k : Int) * w.dt).toNat) _ _
+  rw [toNat_natCast_mul k w.dt hdt]
+  exact secondsOf_err _ (Nat.mul_pos hk (by omega))
+
+/-- **`line_time_seconds` as a double**: for a regular first line the value the code returns is within
+    `(1 ± 2⁻⁵³)³` of `(P·k + dead)·dt·10⁻⁹` s, the line period the info wave encodes
+    (`line_time_spec`: `= t0(1) − t0(0)`). -/
+theorem line_time_seconds_spec (w : Wave) (hdt : 0 < w.dt) (lead k P dead : Nat) (more rest : List Nat)
+    (c : Nat) (h : FirstLine w lead k P dead more rest c) :
+    ∃ s, w.lineTimeSec P = some s ∧ Within3 s ((P * k + dead) * w.dt.toNat) 1000000000 := by
+  refine ⟨_, by unfold Wave.lineTimeSec; rw [(line_time_spec w lead k P dead more rest c h).1]; rfl, ?_⟩
+  show Within3 (secondsOf (((P * k + dead : Nat) : Int) * w.dt).toNat) _ _
+  rw [toNat_natCast_mul _ w.dt hdt]
+  exact secondsOf_err _ (Nat.mul_pos (Nat.lt_of_lt_of_le (Nat.mul_pos h.hP h.hk) (Nat.le_add_right _ _)) (by omega))
+
+/-- **`duration` as a double**: the line time (a double `lt`) times the number of image lines, two more
+    roundings: within `(1 ± 2⁻⁵³)²` of `lt · #lines`. -/
+theorem duration_seconds_spec (w : Wave) (P : Nat) (ns : Int) (hns : w.lineTimeNs P = some ns)
+    (hpos : 0 < ns) (hl : 0 < numBlocks w.numBoundaries P) :
+    ∃ d, w.durationSec P = some d ∧
+      Within2 d ((secondsOf ns.toNat).1 * numBlocks w.numBoundaries P) (secondsOf ns.toNat).2 := by
+  refine ⟨_, by unfold Wave.durationSec; rw [hns]; rfl, ?_⟩
+  have hs := secondsOf_err ns.toNat (by omega)
+  have h1 : 0 < (secondsOf ns.toNat).1 := by
+    rcases Nat.eq_zero_or_pos (secondsOf ns.toNat).1 with h0 | h0
+    · have h3 := hs.2.2
+      rw [h0] at h3
+      have : 0 < ns.toNat * (secondsOf ns.toNat).2 := Nat.mul_pos (by omega) hs.1
+      omega
+    · exact h0
+  exact timesNat_err _ _ h1 hs.1 hl
+
+example :
+    let w : Wave := ⟨1000, 10, [0, 0, 1, 2, 1, 2, 1, 2, 0, 0, 0, 1, 2]⟩
+    w.lineTimeNs 3 = some 90 ∧ 0 < numBlocks w.numBoundaries 3 := by decide
+
 end Verif.C03
